@@ -32,7 +32,7 @@ def arity_of(bt, types):
     return types[bt["ft"]][1]
 
 
-def run(ops, conds, plan=None, types=None, nresults=0, fuel=400, marker_filter=None, record_all_probes=False):
+def run(ops, conds, plan=None, types=None, nresults=0, fuel=400, marker_filter=None, record_all_probes=False, params=()):
     plan = plan or []
     types = types or []
     ev = []
@@ -48,7 +48,7 @@ def run(ops, conds, plan=None, types=None, nresults=0, fuel=400, marker_filter=N
         if record_all_probes or (marker_filter is not None and arg == marker_filter):
             ev.append(arg & 0xFFFF)
 
-    stack, locs = [], [0] * 8
+    stack, locs = [], list(params) + [0] * (8 - len(params))
     ctrl = []          # frames: dict(kind, opener, end, els, height, arity, arm)
     pc, oi = 0, 0
     fire("func_entry")
